@@ -17,8 +17,8 @@ pub static DEF: CheckDef = CheckDef {
     id: "C05",
     variants: &["static-query", "dynamic-query", "static-mutation", "dynamic-mutation"],
     run,
-    quick_runs: 8_000,
-    thorough_runs: 300_000,
+    quick_runs: 100_000,
+    thorough_runs: 6_000_000,
     rule: "case = generated operation + fault plan (none, a single fault anywhere, or 1-3 faults on nullable fields) executed under 5 schedules: everything-ready FIFO (what the test-suite sees), LIFO with drawn latencies, and 3 drawn (latency seed/profile, policy, event batching). Oracle: data (including response-key order) identical and errors equal as multisets of (path, locations) across all schedules. Non-trivial = at least two different resolver completion orders were observed for the case; distinct = distinct event-order hashes.",
     real: &["async-graphql executor (static and dynamic)", "futures-util joins", "request-wide error list"],
     stub: &["async runtime (simulator)", "resolvers and guards (harness, gated)"],
